@@ -126,49 +126,92 @@ pub fn run_real(c: &LzmaCase, data: &[u8]) -> Obs {
     }
 }
 
-/// Contract comparison. Returns violation descriptions.
-pub fn compare(c: &LzmaCase, e: &Expect, o: &Obs, check_consumed: bool) -> Vec<String> {
-    let mut v = vec![];
+/// Contract comparison.  Returns (clause, description) pairs; the clause names say which property's text states it:
+///   "panic"        every property of a decoder (a panic is never a permitted outcome)
+///   "accept-valid" well-formed / in-limit input must decode          C01, C05, C08 (size / marker endings), C10 (limit not exceeded)
+///   "exact-output" bytes delivered on success                        C01, C05, C08, C09 (no fabricated bytes), C10
+///   "consumed"     reader position after success                     C11, C08 (header byte counts)
+///   "reject:<class>" an input the rules make an error                C08 (truncated, eos-before-size, overshoot, bytes-after-eos),
+///                                                                    C11 (bytes-after-eos), C09 (dist), C10 (mem(..));
+///                                                                    header-short / props / preamble-short: no listed property
+///   "sink-after-error" what the sink holds after a rejection         C09 (never fabricates), C12
+pub fn compare(c: &LzmaCase, e: &Expect, o: &Obs, check_consumed: bool) -> Vec<(String, String)> {
+    let mut v: Vec<(String, String)> = vec![];
     if o.verdict == Verdict::Panic {
-        v.push(format!("panic: {}", o.msg));
+        v.push(("panic".into(), format!("panic: {}", o.msg)));
         return v;
     }
     match e.v {
         Exp::Ok => {
             if o.verdict != Verdict::Ok {
-                v.push(format!("expected Ok ({}), got Err: {}", e.class, o.msg));
+                v.push(("accept-valid".into(), format!("expected Ok ({}), got Err: {}", e.class, o.msg)));
             } else if o.out != e.out {
-                v.push(format!(
+                v.push(("exact-output".into(), format!(
                     "output differs from what the format defines: expected {} bytes, got {} bytes (first difference at {})",
                     e.out.len(),
                     o.out.len(),
                     first_diff(&e.out, &o.out)
-                ));
+                )));
             } else if check_consumed {
                 if let (Some(a), Some(b)) = (e.consumed, o.consumed) {
                     if a != b {
-                        v.push(format!("consumed {} input bytes, the payload ends at {}", b, a));
+                        v.push(("consumed".into(), format!("consumed {} input bytes, the payload ends at {}", b, a)));
                     }
                 }
             }
         }
         Exp::Err => {
             if o.verdict == Verdict::Ok {
-                v.push(format!("expected Err ({}), got Ok with {} bytes", e.class, o.out.len()));
+                v.push((format!("reject:{}", e.class), format!("expected Err ({}), got Ok with {} bytes", e.class, o.out.len())));
             } else if !is_prefix(&o.out, &e.out) {
-                v.push(format!("sink after error is not a prefix of the valid output ({})", e.class));
+                v.push(("sink-after-error".into(), format!("sink after error is not a prefix of the valid output ({})", e.class)));
             }
         }
         Exp::Any => {
             if o.verdict == Verdict::Ok && o.out != e.out {
-                v.push(format!("accepted ({}) but output differs from the decoded symbols", e.class));
+                v.push(("exact-output".into(), format!("accepted ({}) but output differs from the decoded symbols", e.class)));
             } else if !is_prefix(&o.out, &e.out) {
-                v.push(format!("sink is not a prefix of the decoded symbols ({})", e.class));
+                v.push(("sink-after-error".into(), format!("sink is not a prefix of the decoded symbols ({})", e.class)));
             }
         }
     }
     let _ = c;
     v
+}
+
+/// Does the text of `prop` state the clause?
+pub fn owns_clause(prop: &str, clause: &str) -> bool {
+    let is = |ps: &[&str]| ps.contains(&prop);
+    if clause == "panic" {
+        return true;
+    }
+    if clause == "accept-valid" {
+        return is(&["C01", "C05", "C08", "C10", "C15", "C16"]);
+    }
+    if clause == "exact-output" {
+        return is(&["C01", "C05", "C08", "C09", "C10"]);
+    }
+    if clause == "consumed" {
+        return is(&["C11", "C08"]);
+    }
+    if clause == "sink-after-error" {
+        return is(&["C09", "C12"]);
+    }
+    if clause == "stream-vs-oneshot" {
+        return is(&["C05"]);
+    }
+    if let Some(class) = clause.strip_prefix("reject:") {
+        if class.starts_with("mem(") {
+            return is(&["C10"]);
+        }
+        return match class {
+            "dist" => is(&["C09"]),
+            "bytes-after-eos" => is(&["C08", "C11", "C05"]),
+            "truncated" | "eos-before-size" | "overshoot" => is(&["C08", "C05"]),
+            _ => false, // header-short, props, preamble-short: rejection not stated by a listed property
+        };
+    }
+    false
 }
 
 fn first_diff(a: &[u8], b: &[u8]) -> usize {
@@ -202,13 +245,46 @@ pub fn check_case(c: &LzmaCase, prop: &str, rep: &mut Report) -> bool {
     }
     let o = run_real(c, &data);
     let check_consumed = prop == "C11";
-    let mut vs = compare(c, &e, &o, check_consumed);
+    let mut vs: Vec<String> = vec![];
+    let mut skip_rest = false;
+    // raw decoder with a dictionary below 4096: the properties fix the HEADER rule only ("below 4096 behaves as
+    // 4096"); a raw constructor may keep the size it is given, raise it to 4096, or refuse it.  Judge against both
+    // readings of "the dictionary size in effect", and not at all when the constructor refuses.
+    let mut e = e;
+    if c.api == "raw" && c.dict < 4096 {
+        use lzma_rs::decompress::raw::{LzmaDecoder, LzmaParams, LzmaProperties};
+        let refused = crate::io::catch(|| LzmaDecoder::new(LzmaParams::new(LzmaProperties { lc: c.props.lc, lp: c.props.lp, pb: c.props.pb }, c.dict, c.raw_size), None).is_err());
+        if matches!(refused, crate::io::Caught::Done(true)) && c.dict > 0 {
+            rep.count("raw_small_dict_refused_by_constructor");
+            skip_rest = true;
+        } else if compare(c, &e, &o, false).iter().any(|(k, _)| k != "panic") {
+            let e2 = expect_payload(&data, c.props, 4096, c.raw_size, c.memlimit);
+            if compare(c, &e2, &o, false).is_empty() {
+                rep.count("raw_small_dict_behaves_as_4096");
+                e = e2;
+            }
+        }
+    }
+    if !skip_rest {
+        for (clause, d) in compare(c, &e, &o, check_consumed) {
+            if owns_clause(prop, &clause) {
+                vs.push(d);
+            } else {
+                rep.drift(format!("(clause '{}' of another property, seen while checking {}) {}", clause, prop, d), json!({"origin": c.origin}));
+            }
+        }
+    }
     if o.zero_progress && c.api == "stream" {
         // Ok(0) on a non-empty piece is legal only once the size in effect has been reached
         let size = crate::oracle::size_in_effect(c.opt, c.size_field);
         let legal = matches!(size, Some(s) if o.out.len() as u64 >= s) || e.v != Exp::Ok;
         if !legal {
-            vs.push("write returned Ok(0) for non-empty input while decoding was still in progress".into());
+            let d = "write returned Ok(0) for non-empty input while decoding was still in progress".to_string();
+            if ["C01", "C05", "C08"].contains(&prop) {
+                vs.push(d);
+            } else {
+                rep.drift(format!("(clause of another property, seen while checking {}) {}", prop, d), json!({"origin": c.origin}));
+            }
         }
     }
     // the raw decoder object is reusable: every other case is decoded again on an object that first decoded a
@@ -218,8 +294,16 @@ pub fn check_case(c: &LzmaCase, prop: &str, rep: &mut Report) -> bool {
         let warm = coding::encode_program(&warm_prog, c.props).payload;
         let ml = c.memlimit.map(|m| m as usize);
         let (o2, cons2) = api::raw_lzma_reused(&data, c.props.lc, c.props.lp, c.props.pb, c.dict, c.raw_size, ml, &warm);
-        if o2.verdict != o.verdict || (o2.verdict == Verdict::Ok && (o2.out != o.out || Some(cons2) != o.consumed)) {
-            vs.push(format!("a reset LzmaDecoder that decoded another stream before gives {:?} ({} bytes) where a new one gives {:?} ({} bytes): {}", o2.verdict, o2.out.len(), o.verdict, o.out.len(), o2.msg));
+        if o2.verdict == Verdict::Panic {
+            vs.push(format!("panic on a reset LzmaDecoder: {}", o2.msg));
+        } else if o2.verdict != o.verdict || (o2.verdict == Verdict::Ok && (o2.out != o.out || Some(cons2) != o.consumed)) {
+            // "reset = new" is C14's text: under the other properties it is shape-tier information
+            let d = format!("a reset LzmaDecoder that decoded another stream before gives {:?} ({} bytes) where a new one gives {:?} ({} bytes): {}", o2.verdict, o2.out.len(), o.verdict, o.out.len(), o2.msg);
+            if prop == "C14" {
+                vs.push(d);
+            } else {
+                rep.drift(format!("(C14 clause seen while checking {}) {}", prop, d), json!({"origin": c.origin}));
+            }
         }
     }
     rep.count(&format!("class:{}", e.class));
@@ -718,7 +802,7 @@ pub fn replay_header_export(path: &str, prop: &str, seed: u64, rep: &mut Report)
 
 /// One entry point on one input, judged against the byte-level oracle (and, for the Stream entry points, against the
 /// one-shot decoder).  Shared by the replay of MC_EntryPoints and by `--replay` of its violations.
-pub fn judge_entry_point(ep: &str, data: &[u8], opt: Opt, props: Props, built_with: Option<u64>, rule: &str) -> Result<Vec<String>, String> {
+pub fn judge_entry_point(ep: &str, data: &[u8], opt: Opt, props: Props, built_with: Option<u64>, rule: &str, prop: &str, rep: &mut Report) -> Result<Vec<String>, String> {
     let e = expect_lzma(data, opt, None);
     let o = api::options(opt, None, false);
     let one = api::lzma_bytes_consumed(data, &o);
@@ -757,31 +841,39 @@ pub fn judge_entry_point(ep: &str, data: &[u8], opt: Opt, props: Props, built_wi
         }
         other => return Err(format!("unknown entry point {}", other)),
     };
-    let mut vs: Vec<String> = vec![];
+    let mut tagged: Vec<(String, String)> = vec![];
     match out.verdict {
-        Verdict::Panic => vs.push(format!("panic: {}", out.msg)),
+        Verdict::Panic => tagged.push(("panic".into(), format!("panic: {}", out.msg))),
         Verdict::Ok => match e.v {
-            Exp::Err => vs.push(format!("accepted ({} bytes) although the rules say error ({})", out.out.len(), e.class)),
+            Exp::Err => tagged.push((format!("reject:{}", e.class), format!("accepted ({} bytes) although the rules say error ({})", out.out.len(), e.class))),
             _ => {
                 if out.out != e.out {
-                    vs.push(format!("output of {} bytes, the stream defines {}", out.out.len(), e.out.len()));
+                    tagged.push(("exact-output".into(), format!("output of {} bytes, the stream defines {}", out.out.len(), e.out.len())));
                 } else if let (Some(c1), Some(ec)) = (consumed, e.consumed) {
                     if e.v == Exp::Ok && c1 != ec {
-                        vs.push(format!("consumed {} input bytes, the payload ends at {} (rule: {})", c1, ec, rule));
+                        tagged.push(("consumed".into(), format!("consumed {} input bytes, the payload ends at {} (rule: {})", c1, ec, rule)));
                     }
                 }
             }
         },
         Verdict::Err => {
             if e.v == Exp::Ok {
-                vs.push(format!("rejected although the rules say success: {}", out.msg));
+                tagged.push(("accept-valid".into(), format!("rejected although the rules say success: {}", out.msg)));
             }
         }
     }
     // C05: whatever the rules leave open, the streaming decoder must side with the one-shot decoder
-    if vs.is_empty() && ep.starts_with("stream") && one.0.verdict != Verdict::Panic && out.verdict != Verdict::Panic {
+    if tagged.is_empty() && ep.starts_with("stream") && one.0.verdict != Verdict::Panic && out.verdict != Verdict::Panic {
         if (out.verdict == Verdict::Ok) != (one.0.verdict == Verdict::Ok) || (out.verdict == Verdict::Ok && out.out != one.0.out) {
-            vs.push(format!("{} gives {:?} ({} bytes), the one-shot decoder {:?} ({} bytes)", ep, out.verdict, out.out.len(), one.0.verdict, one.0.out.len()));
+            tagged.push(("stream-vs-oneshot".into(), format!("{} gives {:?} ({} bytes), the one-shot decoder {:?} ({} bytes)", ep, out.verdict, out.out.len(), one.0.verdict, one.0.out.len())));
+        }
+    }
+    let mut vs: Vec<String> = vec![];
+    for (clause, d) in tagged {
+        if owns_clause(prop, &clause) {
+            vs.push(d);
+        } else {
+            rep.drift(format!("(clause '{}' of another property, seen while checking {}) {}: {}", clause, prop, ep, d), json!({"entry_point": ep}));
         }
     }
     Ok(vs)
@@ -793,7 +885,7 @@ pub fn replay_ep(v: &Value, prop: &str, rep: &mut Report) {
     let data = c.bytes();
     let ep = v["entry_point"].as_str().unwrap_or("oneshot");
     rep.eval(1, true);
-    match judge_entry_point(ep, &data, c.opt, c.props, v["built_with"].as_u64(), "") {
+    match judge_entry_point(ep, &data, c.opt, c.props, v["built_with"].as_u64(), "", prop, rep) {
         Ok(vs) if !vs.is_empty() => rep.violation(prop, format!("replayed {}: {}", ep, vs.join("; ")), v.clone()),
         Ok(_) => {}
         Err(m) => rep.tool_error(m),
@@ -901,7 +993,7 @@ pub fn replay_entry_points(path: &str, prop: &str, seed: u64, rounds: usize, rep
                 let ep = ep.as_str();
                 let built_with = if n % 2 == 0 { Some(3u64) } else { None };
                 rep.eval(hash_of(&(hex(&data), ep, format!("{:?}", opt))), true);
-                let vs = match judge_entry_point(ep, &data, opt, *props, built_with, &v["consumed"].to_string()) {
+                let vs = match judge_entry_point(ep, &data, opt, *props, built_with, &v["consumed"].to_string(), prop, rep) {
                     Ok(vs) => vs,
                     Err(m) => {
                         rep.tool_error(m);
@@ -1182,6 +1274,15 @@ pub fn fab_probes(prop: &str, seed: u64, n: usize, rep: &mut Report) {
                 let mut cs = CS::default();
                 let mut probs = Probs::default();
                 let mut t2 = tail.clone();
+                if api_name == "stream-incomplete" {
+                    // C15 lets the streaming decoder lag up to 64 input bytes behind, and with allow_incomplete
+                    // finish() accepts what exists: the bad copy must lie well before the end of the input for its
+                    // rejection to be due - more than 64 bytes of continuation follow it
+                    t2 = vec![Sym::Match { d: 1, n: 2 }];
+                    for j in 0..130u32 {
+                        t2.push(Sym::Lit { b: (j.wrapping_mul(97) ^ (j >> 2)) as u8 });
+                    }
+                }
                 if marker {
                     t2.push(Sym::Eos);
                 }
@@ -1281,6 +1382,80 @@ pub fn fab_probes(prop: &str, seed: u64, n: usize, rep: &mut Report) {
                 if o.verdict != Verdict::Err {
                     rep.violation(prop, format!("{}: a copy from an empty dictionary (first symbol after a dictionary reset) was accepted: {:?}, {} bytes", api_name, o.verdict, o.out.len()),
                         json!({"kind": "fab", "seed": seed, "n": n, "api": api_name, "data_hex": hex(&stream), "expect": "err"}));
+                }
+            }
+        }
+    }
+    // ---- dictionaries of 4096 bytes and more that are not a power of two: a distance beyond the dictionary but within
+    // what a rounded-up ring would still hold must be refused (all entry points; above 4096 there is one reading of
+    // "the dictionary size in effect")
+    for (di, dict) in [5000u32, 4097, 6000, 12289].iter().enumerate() {
+        let p = Props { lc: 3, lp: 0, pb: 2 };
+        let mut prefix: Vec<Sym> = vec![];
+        let mut produced = 0u64;
+        let mut k = 0u32;
+        while produced < *dict as u64 + 1200 {
+            if k % 5 == 4 {
+                prefix.push(Sym::Match { d: 1 + (k as u64 % 3), n: 100 });
+                produced += 100;
+            } else {
+                prefix.push(Sym::Lit { b: 0x41 + (k % 50) as u8 });
+                produced += 1;
+            }
+            k += 1;
+        }
+        for bad_d in [*dict as u64 + 1, *dict as u64 + 600, (*dict as u64).next_power_of_two().min(produced)] {
+            if bad_d <= *dict as u64 || bad_d > produced {
+                continue;
+            }
+            for api_name in ["raw", "oneshot", "stream"] {
+                let mut cs = CS::default();
+                let mut probs = Probs::default();
+                let tail = vec![Sym::Match { d: 1, n: 2 }, Sym::Lit { b: b'a' }, Sym::Lit { b: b'b' }];
+                // the copy reads REAL bytes (they exist further back than the dictionary reaches): code it as valid
+                let (payload, total, valid_out) = {
+                    let mut enc = RangeEnc::new();
+                    for s in prefix.iter() {
+                        let d = cs.decisions(s, p);
+                        encode_decs(&mut enc, &mut probs, &d);
+                        cs.apply(s);
+                    }
+                    let valid_out = cs.out.clone();
+                    let bad = Sym::Match { d: bad_d, n: 5 };
+                    let d = cs.decisions(&bad, p);
+                    encode_decs(&mut enc, &mut probs, &d);
+                    cs.apply(&bad);
+                    for s in &tail {
+                        let d = cs.decisions(s, p);
+                        encode_decs(&mut enc, &mut probs, &d);
+                        cs.apply(s);
+                    }
+                    (enc.finish(), cs.out.len(), valid_out)
+                };
+                let size = Some(total as u64);
+                let o = match api_name {
+                    "raw" => api::raw_lzma(&payload, p.lc, p.lp, p.pb, *dict, size, None).0,
+                    "oneshot" => {
+                        let mut d = lzma_header(p, *dict, size);
+                        d.extend_from_slice(&payload);
+                        api::lzma_bytes(&d, &api::options(Opt::ReadFromHeader, None, false))
+                    }
+                    _ => {
+                        let mut d = lzma_header(p, *dict, size);
+                        d.extend_from_slice(&payload);
+                        let r = api::stream_run(&d, &[d.len() / 3], &api::options(Opt::ReadFromHeader, None, false));
+                        api::Outcome { verdict: r.verdict, out: r.out, msg: r.msg }
+                    }
+                };
+                rep.eval(hash_of(&(di, bad_d, api_name, "beyond-dict")), true);
+                rep.count("fab_probe_beyond_dict");
+                let bad_res = match o.verdict {
+                    Verdict::Panic => Some(format!("panic: {}", o.msg)),
+                    Verdict::Ok => Some(format!("a copy with distance {} was accepted under a dictionary of {} bytes ({} bytes delivered)", bad_d, dict, o.out.len())),
+                    Verdict::Err => if !is_prefix(&o.out, &valid_out) { Some("bytes beyond the valid prefix were delivered before the error".to_string()) } else { None },
+                };
+                if let Some(b) = bad_res {
+                    rep.violation(prop, format!("{} dict {}: {}", api_name, dict, b), json!({"kind": "fab", "seed": seed, "n": n, "api": api_name, "dict": dict, "distance": bad_d}));
                 }
             }
         }
